@@ -356,6 +356,12 @@ package leader
 //@   on call time.After as a assert C17.waits_computed_backoff: a.d == lastBackoff
 //@   on recv time.After set waitedSinceCall = true
 //@   on recv ctx.Done set sawCancel = true
+//@   ghost checkedLive Bool = false
+//@   on ret Context.Err as r when r.ctx == ctx set checkedLive = r.result == nil
+//@   on ret fn set checkedLive = false
+//@   on ret CircuitBreaker.Call set checkedLive = false
+//@   on call fn assert C17.cancellation_checked_before_each_call: checkedLive
+//@   on call CircuitBreaker.Call assert C17.cancellation_checked_before_each_call: checkedLive
 //@   loop 0 invariant C17.retry_count: $v == ncalls && ncalls >= 0 && !lastNil && !lastPerm && !sawCancel && (ncalls == 0 || waitedSinceCall)
 //@   loop 0 invariant C17.retry_bound: cfg.MaxAttempts > 0 ==> ncalls < cfg.MaxAttempts || ncalls == 0
 //@   ensures C17.success_returns_nil: lastNil ==> result == nil
